@@ -45,7 +45,7 @@ func (x *Exec) calleeContract(c *ssa.CallCommon) (*FuncContract, string, *ssa.Fu
 	key := x.funcValueKey(c.Value)
 	if _, ok := cs.Funcs[key]; !ok {
 		// fall back to a contract for every func value of this signature
-		tk := "functype:" + strings.ReplaceAll(shortTypeName(c.Value.Type().Underlying()), " ", "")
+		tk := "functype:" + strings.NewReplacer(" ", "", "(", "[", ")", "]").Replace(shortTypeName(c.Value.Type().Underlying()))
 		if _, ok := cs.Funcs[tk]; ok {
 			key = tk
 		}
@@ -323,7 +323,7 @@ func (x *Exec) scalarArgsOnly(c *ssa.CallCommon) bool {
 func (x *Exec) tryEvalBool(ex SExpr, env *Env, c *Clause) (t string, ok bool) {
 	defer func() {
 		if r := recover(); r != nil {
-			if u, isU := r.(unsupported); isU && strings.Contains(u.msg, "unbound name") {
+			if u, isU := r.(unsupported); isU && (strings.Contains(u.msg, "unbound name") || strings.Contains(u.msg, "no field") || strings.Contains(u.msg, "non-struct value")) {
 				t, ok = "", false
 				return
 			}
@@ -669,7 +669,15 @@ func (x *Exec) atClauses(what string, pats []string, args []Val, results []Val, 
 		saved := x.guard
 		x.guard = and(saved, guardExtra)
 		for _, cl := range at.Asserts {
-			t := x.evalBool(cl.Expr, env, cl)
+			t, ok := x.tryEvalBool(cl.Expr, env, cl)
+			if !ok {
+				if at.When == nil {
+					x.fail("at-clause %s does not bind at %s", cl.Label, x.posOf(c))
+				}
+				// the clause cannot be stated at this site (its names mean something
+				// else here): then its guard must be false at this site
+				t = "false"
+			}
 			x.oblige("assert", cl.Label, cl.Tags, len(cl.Tags) == 0, t, cl.Src, cl.Where+" @"+x.posOf(c))
 			e.assume(x.guard, t)
 		}
